@@ -1,6 +1,7 @@
 (* C08: facts about the bounded writer, MethodResponse and the batch builder (Model/RespSize.v). *)
 From JV Require Import Base.Bytes Base.Dec Json.Json Json.JsonSer Model.Wire Gen.LimitsWiringGen Model.RespSize
   Model.ReqLimit Proofs.BytesFacts Proofs.DecFacts Proofs.ReqLimitFacts.
+From Coq Require DecimalN DecimalPos DecimalFacts Decimal.
 Local Open Scope N_scope.
 Arguments N.add : simpl never.
 Arguments N.sub : simpl never.
@@ -249,6 +250,50 @@ Proof.
     apply http_svc_limit_wiring in E. subst l. intro H. inversion H. reflexivity.
 Qed.
 
+(* ---------- a u64 prints in at most 20 digits ---------- *)
+Section Digits.
+Import DecimalN DecimalPos DecimalFacts Decimal.
+
+Lemma of_uint_acc_lower d : forall acc, Npos acc * 10 ^ N.of_nat (nb_digits d) <= Npos (Pos.of_uint_acc d acc).
+Proof.
+  induction d; intro acc; cbn [nb_digits Pos.of_uint_acc];
+    try (rewrite Nat2N.inj_succ, N.pow_succ_r by lia;
+         match goal with |- _ <= N.pos (Pos.of_uint_acc _ ?a) => specialize (IHd a) end;
+         eapply N.le_trans; [|exact IHd]; rewrite N.mul_assoc; apply N.mul_le_mono_r; lia).
+  - cbn. lia.
+Qed.
+
+Lemma nb_digits_bytes ds : forallb is_digit ds = true -> nb_digits (bytes_to_uint ds) = length ds.
+Proof.
+  induction ds as [|c ds IH]; cbn [forallb bytes_to_uint length]; [reflexivity|].
+  intro H. apply andb_true_iff in H as [Hc Hs]. specialize (IH Hs).
+  destruct c; try discriminate Hc; cbn [nb_digits]; rewrite IH; reflexivity.
+Qed.
+
+Lemma digits_val_lower c ds :
+  in_range 49 57 c = true -> forallb is_digit ds = true -> 10 ^ N.of_nat (length ds) <= digits_val (c :: ds).
+Proof.
+  intros Hc Hs. unfold digits_val. cbn [bytes_to_uint]. rewrite <- (nb_digits_bytes ds Hs).
+  destruct c; try discriminate Hc; cbn [N.of_uint Pos.of_uint];
+    (eapply N.le_trans; [|apply of_uint_acc_lower]); lia.
+Qed.
+
+Lemma print_N_length_bound n k : n < 10 ^ N.of_nat k -> (1 <= k)%nat -> (length (print_N n) <= k)%nat.
+Proof.
+  intros Hn Hk. destruct (print_N_shape n) as [E | (c & ds & E & Hc & Hs)]; rewrite E; cbn [length]; [exact Hk|].
+  pose proof (digits_val_lower c ds Hc Hs) as L. rewrite <- E, digits_val_print_N in L.
+  destruct (Nat.lt_ge_cases (length ds) k) as [Hlt | Hge]; [lia|]. exfalso.
+  assert (10 ^ N.of_nat k <= 10 ^ N.of_nat (length ds)) by (apply N.pow_le_mono_r; lia). lia.
+Qed.
+
+Lemma print_N_u64 n : n < 2 ^ 64 -> blen (print_N n) <= 20.
+Proof.
+  intro H. unfold blen. assert (L : (length (print_N n) <= 20)%nat).
+  { apply print_N_length_bound; [|lia]. eapply N.lt_le_trans; [exact H|]. vm_compute. discriminate. }
+  lia.
+Qed.
+End Digits.
+
 (* ---------- the fixed error objects ---------- *)
 
 Lemma blen_error_response i e :
@@ -300,6 +345,13 @@ Proof.
                   | |- context [blen (ser_str ?m)] => vmc (blen (ser_str m))
                   end; lia |]).
   destruct H.
+Qed.
+
+(* for every limit a usize can hold: a constant plus the echoed id *)
+Lemma fixed_error_bound_u64 :
+  forall lim i e, lim < 2 ^ 64 -> In e (fixed_errors lim) -> blen (error_response i e) <= 152 + blen (ser_id i).
+Proof.
+  intros lim i e Hl H. pose proof (fixed_error_bound lim i e H). pose proof (print_N_u64 lim Hl). lia.
 Qed.
 
 (* ---------- requests are not affected by max_response ---------- *)
